@@ -260,7 +260,7 @@ class Server:
                 pass
 
 
-def impl_server(cache=False, watchdog_ms=20000, scratch=None):
+def impl_server(cache=False, watchdog_ms=60000, scratch=None):
     env = {"HC_WATCHDOG_MS": str(watchdog_ms)}
     if scratch:
         env["HC_SCRATCH"] = scratch
